@@ -229,10 +229,10 @@ pub fn run(ctx: &mut Ctx) {
     let quick = ctx.quick();
     let n_a = ctx.tier.pick(5, 6);
     let n_b = ctx.tier.pick(3, 4);
-    ctx.meta("rule", "cases: API histories on the real iterator over a scripted source. (A) every Σ string up to length nA and every sequence of <= L adversarial header tokens (zero-length numerics, 8-byte ids/sizes, all-ones sizes, sizes of 2^56-2 and 5 GB) x a configuration lattice (8 tolerance subsets x buffered sets x capacities {default,0,3,16} x size limits {default,5,none} x EOF closing on/off): next() until None, then 3 more calls (fused), or <= 3 calls after an error. (B) every Σ string up to length nB and every token x {strict, all tolerated, buffered} x try_recover() replacing next() at every set of <= 2 op positions (incl. before the first next and after None) x an injected source error at read k (<= 2 per history) x short reads. (C) inputs of tens of thousands of adjacent elements per shape (known/unknown-size masters, leaves), unbuffered and buffered; (D) a specification with a recursive global master and an input nested 10 000 (50 000) levels deep, on a 1 MiB stack, buffered and not. Oracle: every call returns (catch_unwind + watchdog; a stack overflow aborts the worker and is attributed to the case), successful items <= 2*len+12, fused after None with the source exhausted, each injected error surfaces exactly once as ReadError with its message, try_recover fails only with UnexpectedEOF/ReadError. Non-trivial: histories with an error or a recover call.");
+    ctx.meta("rule", "cases: API histories on the real iterator over a scripted source. (A) every Σ string up to length nA and every sequence of <= L adversarial header tokens (zero-length numerics, 8-byte ids/sizes, all-ones sizes, sizes of 2^56-2 and 5 GB) x a configuration lattice (8 tolerance subsets x buffered sets x capacities {default,0,3,16} x size limits {default,5,none} x EOF closing on/off): next() until None, then 3 more calls (fused), or <= 3 calls after an error. (B) every Σ string up to length nB and every token x {strict, all tolerated, buffered} x try_recover() replacing next() at every set of <= 2 op positions (incl. before the first next and after None) x an injected source error at read k (<= 2 per history) x short reads; the same over every single mutation (byte replaced by each Σ byte, byte deleted) of every small document. (C) inputs of tens of thousands of adjacent elements per shape (known/unknown-size masters, leaves), unbuffered and buffered; (D) a specification with a recursive global master and an input nested 10 000 (50 000) levels deep, on a 1 MiB stack, buffered and not. Oracle: every call returns (catch_unwind + watchdog; a stack overflow aborts the worker and is attributed to the case), successful items <= 2*len+12, fused after None with the source exhausted, each injected error surfaces exactly once as ReadError with its message, try_recover fails only with UnexpectedEOF/ReadError. Non-trivial: histories with an error or a recover call.");
     ctx.meta("bounds", &format!("nA={} nB={} token sequences L<={}; <=2 try_recover calls, <=2 injected errors", n_a, n_b, ctx.tier.pick(2, 2)));
     ctx.meta("assumptions", "post-error output is unconstrained except for panics (at most 3 further calls are made) || 64 KiB size limit is not applied here: declared sizes above the limit are rejected by the library before allocation (C17), sizes below it with missing payload allocate what they declare");
-    for c in ["recover_ok", "injected_errors_served", "long_inputs", "deep_nesting_inputs"] {
+    for c in ["recover_ok", "injected_errors_served", "long_inputs", "deep_nesting_inputs", "mutated_documents_with_recovery"] {
         ctx.expect_nonzero(c);
     }
     let cfgs = configs(quick);
@@ -328,6 +328,23 @@ pub fn run(ctx: &mut Ctx) {
         if ctx.mine(i as u64) {
             run_b(ctx, dct, "junk-doc");
         }
+    }
+    // every single mutation of the small known-size documents: a size field that no longer matches its content is
+    // where recovery walks over the declared end of an open master
+    {
+        let rs = crate::spec::v_refspec();
+        let p = crate::docs::DocParams { max_nodes: ctx.tier.pick(3, 4), globals: vec![ID_VOID], exclude: vec![ID_EBML, ID_P, ID_K, ID_L, ID_F, ID_S, ID_I], unknown_subsets: !quick, devs: 0, payload_classes: false, big_payloads: false, noncanonical: false, width_devs: false, extras: false, all_widths: false };
+        let kinds = [crate::docs::MutKind::Replace, crate::docs::MutKind::Delete];
+        crate::docs::for_each_doc(ctx, &rs, &p, &mut |ctx, doc| {
+            let (bytes, lay) = crate::refmodel::ref_encode(doc);
+            let bounds: Vec<usize> = lay.iter().map(|l| l.tag_start).collect();
+            crate::docs::for_each_mutation(&bytes, &bounds, &SIGMA, &kinds, &mut |m, _k, _pos| {
+                ctx.count("mutated_documents_with_recovery", 1);
+                run_b(ctx, m, "mutated-doc");
+                !ctx.should_stop()
+            });
+            !ctx.should_stop()
+        });
     }
     ctx.checkpoint();
     // (C) long inputs: call depth must not grow with the number of elements (a stack overflow aborts the worker
